@@ -59,6 +59,10 @@ def classify(nn, site, atom, pol, dinfo):
         if op in ("==", "!=", "is", "isnot"):
             sx, sy = nn.idx_space(q, x), nn.idx_space(q, y)
             if sx is not None and sy is not None:
+                if strip_all(x) == strip_all(y):
+                    return ("trivial", show(a, 60))          # a position compared with itself
+                if site.a is not None and {strip_all(x), strip_all(y)} != {strip_all(site.a), strip_all(site.b)} and site.extra.get("pipeline") is None:
+                    return ("unknown", "positions compared are not the two reported positions")
                 keeps_different = (op in ("!=", "isnot")) == pol
                 return ("self", keeps_different, sx, sy, None)
             for u, v in ((x, y), (y, x)):
@@ -102,6 +106,8 @@ def classify(nn, site, atom, pol, dinfo):
         flags = [p for p in parts if nn.R._role_of(q, p) == "PDIST"]
         eqs = [p for p in parts if head(p) == "cmp" and p[1] in ("==", "is") and nn.idx_space(q, p[2]) is not None and nn.idx_space(q, p[3]) is not None]
         if len(flags) == 1 and len(eqs) == 1 and len(parts) == 2:
+            if strip_all(eqs[0][2]) == strip_all(eqs[0][3]):
+                return ("trivial", show(a, 60))
             return ("self", True, nn.idx_space(q, eqs[0][2]), nn.idx_space(q, eqs[0][3]), flags[0])
     return ("unknown", "guard outside the lemma table")
 
@@ -189,6 +195,9 @@ def check_site(r, rule, nn, site, mode, spaceA, spaceB, self_policy, equal_lengt
         elif c[0] == "valuememo":
             rep.ob(rule + "-FGA", con, False, "pairs are examined per pair of positions (equal sequences at different positions are distinct pairs)", where,
                    expected="a memo keyed by positions, or none", found=f"already-seen test keyed by sequence values: {c[1]}", key=f"{K} value memo", lint=True)
+        elif c[0] == "trivial":
+            rep.ob(rule + "-FGA", con, False, "the self-exclusion compares the two reported positions", where, expected="query position == reference position",
+                   found=f"{c[1]}: a position compared with itself (always equal)", key=f"{K} trivial self filter", lint=True)
         elif c[0] == "unknown":
             unknown.append((atom, pol, c[1]))
     for kind, T in dinfo["implied"]:
@@ -707,7 +716,7 @@ def check_container_casts(r, rule, nn, engine_functions=None):
 
 def _check_site_collection(r, prop, nn, st, label, mode):
     """The collection a triplet is inserted into is the one the function hands to _make_output (an insertion into some other list is a lost pair)."""
-    if st.coll is None or st.kind not in ("append", "add"):
+    if st.coll is None or st.kind not in ("append", "add", "comp", "bulk"):
         return
     s = nn.summary(st.q)
     outs = [strip(e["term"])[2][0] for e in s.calls(MOD + "_make_output") if strip(e["term"])[2]]
@@ -717,10 +726,10 @@ def _check_site_collection(r, prop, nn, st, label, mode):
         return
     names = lambda t: {x[2] for x in walk(("t", t)) if head(x) in ("phi", "after") and isinstance(x[2], str)}
     nc, no = names(st.coll), set().union(*[names(o) for o in outs])
-    if nc and not no and all((head(strip(o)) in ("list", "set") and not strip(o)[1]) or ((is_call(strip(o), "builtins.set") or is_call(strip(o), "builtins.list")) and not strip(o)[2]) for o in outs):
+    if not no and all((head(strip(o)) in ("list", "set") and not strip(o)[1]) or ((is_call(strip(o), "builtins.set") or is_call(strip(o), "builtins.list")) and not strip(o)[2]) for o in outs):
         # what is handed to _make_output is still the empty collection it was created as: the insertions went elsewhere
         r.rep.ob(prop + "-GLUE", f"{st.q}#{label}@{MODE_NAME[mode]}", False, "triplets are inserted into the collection that is returned", wh(r, st.q, st.node),
-                 expected="insertion into the collection handed to _make_output", found=f"insertion into {', '.join(sorted(nc))}; _make_output receives an empty {show(outs[0], 20)}", key=f"{label}/{MODE_NAME[mode]} site collection")
+                 expected="insertion into the collection handed to _make_output", found=f"insertion into {', '.join(sorted(nc)) or show(st.coll, 40)}; _make_output receives an empty {show(outs[0], 20)}", key=f"{label}/{MODE_NAME[mode]} site collection")
         return
     if not nc or not no:
         return          # not name-carried collections (comprehension results, helper returns): nothing to compare
@@ -799,16 +808,24 @@ def check_kdtree_dispatch(r, rule, cds):
             r.rep.ob(rule, q, False, f"in mode custom_distance={mode[0]} kdtree searches the whole collection at once (no length buckets)", wh(r, q, s.func.node),
                      expected="return _kdtree_leven(seqs, ...)", found="; ".join(show(l, 60) for l in lv[:2]), key=f"kdtree dispatch {mode[0]}")
             continue
-        raw = [e for e in s.calls(MOD + "_kdtree_leven") if not e.ctx.loops]
-        if len(raw) != 1:
+        raw = [e for e in s.calls(MOD + "_kdtree_leven") if not e.ctx.loops and not e.ctx.func]
+        if len(raw) == 1:
+            c, node = strip(raw[0]["term"]), raw[0].node
+        elif not raw:
+            # the call sits in a local helper: the returned (beta-reduced, not mode-folded) call is what runs in this mode
+            lv0 = [strip(l) for _, l in leaves(lift_ite(strip_all(s.ret))) if is_call(strip(l), MOD + "_kdtree_leven")]
+            if len(lv0) != 1:
+                r.rep.require(False, f"{q}: {len(lv0)} returned calls of _kdtree_leven; cannot decide [{rule}]")
+                continue
+            c, node = lv0[0], s.func.node
+        else:
             r.rep.require(False, f"{q}: {len(raw)} direct calls of _kdtree_leven outside the bucket loop; cannot decide [{rule}]")
             continue
-        c = strip(raw[0]["term"])
         ok = bool(c[2]) and nn.R._role_of(q, c[2][0]) == "SEQS"
-        r.rep.ob(rule, q, ok, f"in mode custom_distance={mode[0]} kdtree searches the whole collection at once (no length buckets)", wh(r, q, raw[0].node),
+        r.rep.ob(rule, q, ok, f"in mode custom_distance={mode[0]} kdtree searches the whole collection at once (no length buckets)", wh(r, q, node),
                  expected="return _kdtree_leven(seqs, ...)", found=show(c, 80), key=f"kdtree dispatch {mode[0]}")
         if mode[0] == sorted(seen)[0]:
-            check_role_forwarding(r, rule, q, c, raw[0].node, key="kdtree->leven ")
+            check_role_forwarding(r, rule, q, c, node, key="kdtree->leven ")
 
 
 def check_nn_glue(r, prop, cds, labels, functions):
@@ -1761,6 +1778,7 @@ def check_buckets(r, rule):
         raise AnalysisBroken(f"{q}: no triplet insertion found in the Hamming branch (anchor vanished)")
     for st in sites:
         where = wh(r, q, st.node)
+        _check_site_collection(r, rule, nn, st, "kdtree-buckets", mode)
         if st.kind == "bulk":
             sp = st.extra["spaces"]
             r.rep.ob(rule + "-IST", q, sp[0] == seqs and sp[1] == seqs, "triplets produced for a sub-container are mapped back to input positions before they are returned (IST-5)", where,
